@@ -26,7 +26,7 @@ def _go(p: uint256) -> uint256:
         arg: uint256 = (a >> 216) & 65535
         ok: bool = False
         resp: Bytes[32] = b""
-        data: Bytes[36] = concat(sel, convert(arg, bytes32))
+        data: Bytes[68] = concat(sel, convert(arg, bytes32), convert(7, bytes32))
         if is_static:
             ok, resp = raw_call(target, data, max_outsize=32, is_static_call=True, revert_on_failure=False)
         else:
@@ -70,7 +70,10 @@ interface A:
     def boomv() -> uint256: view
 """
 
-KINDS = ["np", "pay", "view", "default", "getter", "unprot", "viaint"]
+KINDS = ["np", "pay", "view", "default", "getter", "unprot", "viaint",
+         "kw1", "kw2", "rawnp", "rawst", "libnp", "libview", "libint"]
+# kinds with a single exit shape (the exit parameter is ignored for them)
+FIXED_EXIT = ("kw1", "kw2", "rawnp", "rawst", "libnp", "libview", "libint")
 EXITS = ["fall", "retbranch", "retloop", "retint", "assert", "raise", "subfail"]
 EXIT_CODE = {x: i for i, x in enumerate(EXITS)}
 
@@ -101,18 +104,23 @@ def fn_body(view, exit_, void):
     raise ValueError(exit_)
 
 
-def victim_source(pragma):
+def _main_source(pragma):
     """One victim contract holding an entry point for every (kind, exit).  pragma=True: protection by
     `#pragma nonreentrancy on` (unprotected ones carry @reentrant), else by @nonreentrant decorators."""
     L = []
     if pragma:
         L.append("#pragma nonreentrancy on")
+    L.append("import lib")
+    L.append("initializes: lib")
+    L.append("exports: (lib.e_libnp_retbranch, lib.e_libview_retbranch)")
     L.append(IFACE)
     L.append("att: public(address)")
     L.append("sink: uint256")
     L.append("one: public(uint256)" if pragma else "one: public(uint256)")
     L.append("")
-    L.append("@deploy\ndef __init__(a: address):\n    self.att = a\n    self.one = 1\n")
+    L.append("@deploy\ndef __init__(a: address, p: uint256, mode: uint256):\n    self.att = a\n    lib.latt = a\n    self.one = 1\n"
+             "    if mode == 1:\n        r: uint256 = extcall A(a).cb(p)\n        self.sink = r\n"
+             "    if mode == 2:\n        r2: uint256 = lib._prot(p)\n        self.sink = r2\n")
     L.append("@internal\n@pure\ndef _mix(r: uint256) -> uint256:\n    return " + MIX.format(acc=1, r="r", okc=2) + "\n")
     prot = [] if pragma else ["@nonreentrant"]
     unprot = ["@reentrant"] if pragma else []
@@ -162,7 +170,54 @@ def victim_source(pragma):
          "    self.sink = r", ""]
     L.append("@internal\ndef _void():\n    self.sink = 5\n")
     L.append("\n".join(d))
+    # ---- round 2 shapes
+    L.append("@internal\n@pure\ndef _mix2(ok: bool, r: uint256) -> uint256:\n    if ok:\n        return " + MIX.format(acc=1, r="r", okc=2)
+             + "\n    return " + MIX.format(acc=1, r="0", okc=1) + "\n")
+    # default-argument entry point: both selectors must lock
+    L.append("\n".join(["@external", "@payable"] + prot + ["def e_kw(p: uint256, q: uint256 = 7) -> uint256:",
+             "    assert q == 7", "    r: uint256 = self._mix(extcall A(self.att).cb(p))", "    if r > 0:", "        return r", "    return 0", ""]))
+    # callback through raw_call (propagating) and through a static raw_call whose failure is caught
+    L.append("\n".join(["@external"] + prot + ["def e_rawnp_retbranch(p: uint256) -> uint256:",
+             '    resp: Bytes[32] = raw_call(self.att, concat(method_id("cb(uint256)"), convert(p, bytes32)), max_outsize=32)',
+             "    r: uint256 = self._mix(convert(resp, uint256))", "    if r > 0:", "        return r", "    return 0", ""]))
+    L.append("\n".join(["@external"] + prot + ["def e_rawst_retbranch(p: uint256) -> uint256:",
+             "    ok: bool = False", '    resp: Bytes[32] = b""',
+             '    ok, resp = raw_call(self.att, concat(method_id("cb(uint256)"), convert(p, bytes32)), max_outsize=32, '
+             "is_static_call=True, revert_on_failure=False)",
+             "    v: uint256 = 0", "    if ok and len(resp) == 32:", "        v = convert(resp, uint256)",
+             "    r: uint256 = self._mix2(ok, v)", "    if r > 0:", "        return r", "    return 0", ""]))
+    # unprotected external entering a @nonreentrant internal function of the library module
+    L.append("\n".join(["@external"] + unprot + ["def e_libint_retbranch(p: uint256) -> uint256:", "    return lib._prot(p)", ""]))
     return "\n".join(L)
+
+
+def _lib_source(pragma):
+    prot = [] if pragma else ["@nonreentrant"]
+    L = ["#pragma nonreentrancy on"] if pragma else []
+    L += [IFACE, "latt: address", "",
+          "@internal\n@pure\ndef _mix(r: uint256) -> uint256:\n    return " + MIX.format(acc=1, r="r", okc=2) + "\n",
+          "\n".join(["@external"] + prot + ["def e_libnp_retbranch(p: uint256) -> uint256:",
+                     "    r: uint256 = self._mix(extcall A(self.latt).cb(p))", "    if r > 0:", "        return r", "    return 0", ""]),
+          "\n".join(["@external", "@view"] + prot + ["def e_libview_retbranch(p: uint256) -> uint256:",
+                     "    r: uint256 = self._mix(staticcall A(self.latt).cbv(p))", "    if r > 0:", "        return r", "    return 0", ""]),
+          "\n".join(["@internal", "@nonreentrant", "def _prot(p: uint256) -> uint256:",
+                     "    r: uint256 = self._mix(extcall A(self.latt).cb(p))", "    if r > 0:", "        return r", "    return 0", ""])]
+    return "\n".join(L)
+
+
+def victim_sources(pragma):
+    """(main source, {module file name: source}): the victim is a two-module contract; the library module holds
+    lock-protected external functions (exported) and a @nonreentrant internal function"""
+    return _main_source(pragma), {"lib.vy": _lib_source(pragma)}
+
+
+def victim_source(pragma):
+    """single text (for replays / reports)"""
+    m, files = victim_sources(pragma)
+    return m + "".join(f"\n\n# ======== {k} ========\n{v}" for k, v in files.items())
+
+
+
 
 
 # ---------------------------------------------------------------- scenario trees
@@ -185,9 +240,9 @@ class ANode:
 
 
 def model_kind(kind, pragma):
-    if kind in ("np", "pay", "default", "viaint"):
+    if kind in ("np", "pay", "default", "viaint", "kw1", "kw2", "rawnp", "rawst", "libnp", "libint"):
         return "Nonview"
-    if kind == "view":
+    if kind in ("view", "libview"):
         return "View"
     if kind == "getter":
         return "View" if pragma else "Unprot"
@@ -201,12 +256,17 @@ def coq_node(n, pragma):
             body = (f"BSub ({coq_node(t, pragma)}) {'false' if prop else 'true'} {'true' if static else 'false'} "
                     f"({'Some ' + str(tag) if rec else 'None'}) ({body})")
         return f"Call {ADV}%nat Unprot ({body})"
+    if n.kind == "nocode":      # a contract under construction has no code: the call succeeds and runs nothing
+        return "Call 7%nat Unprot (BEnd false)"
     k = model_kind(n.kind, pragma)
     if n.kind == "getter":
         return f"Call {n.c}%nat {k} (BEnd true)"
-    view = n.kind == "view"
+    view = n.kind in ("view", "libview")
     st = "true" if view else "false"
-    x = n.exit
+    x = "retbranch" if n.kind in FIXED_EXIT else n.exit
+    if n.kind == "rawst":     # static raw_call whose failure is caught by the victim
+        child = n.child if n.child is not None else ANode()
+        return f"Call {n.c}%nat {k} (BSub ({coq_node(child, pragma)}) true true None (BEnd true))"
     if n.kind == "default":
         # x=fall: `self.sink = r`; x=retint: `self._void()` writes; other normal exits return before writing
         end = "BWrite (BEnd false)" if x in ("fall", "retint") else "BEnd false"
@@ -251,4 +311,16 @@ def entry_name(v):
         return "one"
     if v.kind == "default":
         return "__default__"
+    if v.kind in ("kw1", "kw2"):
+        return "e_kw"
+    if v.kind in FIXED_EXIT:
+        return f"e_{v.kind}_retbranch"
     return f"e_{v.kind}_{v.exit}"
+
+
+def entry_sig(v):
+    if v.kind == "getter":
+        return "one()"
+    if v.kind == "kw2":
+        return "e_kw(uint256,uint256)"
+    return entry_name(v) + "(uint256)"
